@@ -11,7 +11,7 @@ def gen_lines(thorough):
             for n in range(0, maxn + 1):
                 for t in range(-1, n):
                     u.append('u %s %s %d %d' % (helper, leaf, n, t))
-    for helper in ('single', 'anysingle', 'shared'):
+    for helper in ('single', 'anysingle', 'shared', 'singlearg', 'anysinglearg', 'sharedarg'):
         for leaf in ('up', 'pool'):
             for t in (-1, 0):
                 u.append('u %s %s 1 %d' % (helper, leaf, t))
